@@ -61,7 +61,7 @@ shutil.copy(os.path.join(ROOT, "known_findings.jsonl"), outroot)
 if os.path.isdir(os.path.join(ROOT, "regress")): shutil.copytree(os.path.join(ROOT, "regress"), os.path.join(outroot, "regress"))
 results = {}
 for p in props:
-    e2 = dict(env, VERIF_REPO_OVERRIDE=work, VERIF_TARGET_DIR="/tmp/vseed/target", VERIF_OUT_ROOT=outroot, VERIF_SRC_ROOT=outroot)
+    e2 = dict(env, VERIF_REPO_OVERRIDE=work, VERIF_TARGET_DIR=os.environ.get("VSEED_TARGET", "/tmp/vseed/target"), VERIF_OUT_ROOT=outroot, VERIF_SRC_ROOT=outroot)
     t0 = time.time()
     r = subprocess.run([os.path.join(ROOT, "check"), p, "quick"], capture_output=True, text=True, env=e2, timeout=7200)
     viol = [l for l in r.stdout.splitlines() if l.startswith("VIOLATION")]
